@@ -44,7 +44,9 @@ FLOORS = {'ref:reverse-axis': (0.05, 'ref:path'), 'ref:positional': (0.10, 'ref:
           'lxml:verdict': (0.60, 'lxml:path'), 'ref:nonempty': (0.20, 'ref:path'),
           'ref:paren-reverse-step-multi-pred': (0.03, 'ref:path'), 'lxml:paren-reverse-step-multi-pred': (0.03, 'lxml:path'),
           'ref:ns-wildcard': (0.12, 'ref:path'), 'lxml:ns-wildcard': (0.12, 'lxml:path'),
-          'ref:ns-wildcard-hit-in-prefix-uri-doc': (0.015, 'ref:path'), 'ref:paren-reverse-step-2+candidates-at-positional': (0.008, 'ref:path')}
+          'ref:ns-wildcard-hit-in-prefix-uri-doc': (0.015, 'ref:path'), 'hist:result-changed-by-edit': (0.04, 'hist:path'),
+          'lxml:elem-root/doc-siblings-after': (0.08, 'lxml:path'), 'lxml:doc-root/doc-siblings-after': (0.08, 'lxml:path'),
+          'ref:et-xml-in-namespaces': (0.10, 'ref:path'), 'ref:namespace-axis': (0.08, 'ref:path'), 'ref:paren-reverse-step-2+candidates-at-positional': (0.008, 'ref:path')}
 
 # r -> urn:pp: urn:p (prefix p) is a proper string prefix of it, so p:* / @p:* must not match names in urn:pp
 NS = dict(gx.PATH_NAMESPACES, r='urn:pp')
@@ -53,7 +55,23 @@ VERSIONS = ('1.0', '2.0', '3.0', '3.1')
 _CFGS = ([('et', 'elem', None)] * 4 + [('lxml', 'elem', None)] * 4 + [('et', 'doc', None)] * 3 + [('lxml', 'doc', None)] * 4 +
          [('et', 'elem', True), ('lxml', 'elem', True), ('et', 'doc', True), ('lxml', 'doc', True),
           ('et', 'elem', False), ('lxml', 'elem', False), ('et', 'doc', False), ('lxml', 'doc', False)])
-_cfg = st.sampled_from(_CFGS).map(lambda t: {'backend': t[0], 'rootkind': t[1], 'fragment': t[2]})
+# nsxml: where the key 'xml' sits in the namespaces argument (dict(parser.namespaces) and Selector.namespaces always have it)
+_cfg = st.tuples(st.sampled_from(_CFGS), st.sampled_from([None, None, 'first', 'middle', 'last'])).map(
+    lambda t: {'backend': t[0][0], 'rootkind': t[0][1], 'fragment': t[0][2], 'nsxml': t[1]})
+
+
+def ns_arg(cfg):
+    """the namespaces argument of a configuration (prefix map for the paths, optionally with the key 'xml')"""
+    items = list(NS.items())
+    pos = {'first': 0, 'middle': 1, 'last': len(items)}.get(cfg.get('nsxml'))
+    if pos is not None:
+        items.insert(pos, ('xml', gx.XML_NS))
+    return dict(items)
+
+
+def _misc_class(spec):
+    return {(0, 0): 'no-doc-siblings', (1, 0): 'doc-siblings-before', (0, 1): 'doc-siblings-after',
+            (1, 1): 'doc-siblings-both'}[(bool(spec['pre']), bool(spec['post']))]
 _item = st.one_of(st.none(), st.integers(0, 400))
 
 
@@ -70,13 +88,14 @@ def _path_case(draw, max_steps):
 
 def _cases(max_elems, n_paths, max_steps, cfg=_cfg):
     return st.fixed_dictionaries({
-        'spec': gx.tree_specs(max_elems=max_elems, max_depth=4, max_attrs=3, min_elems=5, prefix_uris=True),
+        'spec': gx.tree_specs(max_elems=max_elems, max_depth=4, max_attrs=3, min_elems=5, prefix_uris=True,
+                              doc_misc='balanced'),
         'cfg': cfg,
         'paths': st.lists(_path_case(max_steps), min_size=n_paths, max_size=n_paths),
     })
 
 
-_lxml_cfg = st.sampled_from(['elem', 'doc']).map(lambda rk: {'backend': 'lxml', 'rootkind': rk, 'fragment': None})
+_lxml_cfg = st.sampled_from(['elem', 'doc']).map(lambda rk: {'backend': 'lxml', 'rootkind': rk, 'fragment': None, 'nsxml': None})
 
 # --------------------------------------------------------------------------
 # implementation side
@@ -100,13 +119,17 @@ class Impl:
     def __init__(self, spec, cfg):
         from elementpath import get_node_tree
         self.cfg = cfg
-        self.tc = xdm.tree_config(spec, cfg['backend'], cfg['rootkind'], cfg['fragment'], NS)
+        self.nsarg = ns_arg(cfg)
+        self.tc = xdm.tree_config(spec, cfg['backend'], cfg['rootkind'], cfg['fragment'], self.nsarg)
         self.dummy = self.tc['ctx_dummy']
         self.ref = xdm.ref_tree(spec, self.tc, for_context=True)
         self.b = gx.materialize(spec, cfg['backend'])
         self.root_obj = self.b.tree if cfg['rootkind'] == 'doc' else self.b.root
-        self.top = get_node_tree(self.root_obj, namespaces=dict(NS), fragment=cfg['fragment'])
+        self.top = get_node_tree(self.root_obj, namespaces=dict(self.nsarg), fragment=cfg['fragment'])
+        self.why = None
         self.ok = self._adopt()
+        self.where = f"{cfg['backend']}/{cfg['rootkind']}-root/fragment-{cfg['fragment']}/{_misc_class(spec)}" + \
+            ('/xml-in-namespaces' if cfg.get('nsxml') else '')
         self.ev = xdm.Evaluator(self.ref, {'xml': gx.XML_NS, **NS})
 
     def conv(self, raddr):
@@ -121,10 +144,20 @@ class Impl:
                 n = xdm.ep_find(self.top, self.conv(rn.addr))
                 if n.node_kind != xdm.EP_KIND[rn.kind] or \
                         [c.node_kind for c in n.children] != [xdm.EP_KIND[c.kind] for c in rn.children]:
+                    self.why = 'children-of-' + rn.kind
                     return False
                 if rn.kind == 'element':
-                    ok &= ref.adopt_order(rn.addr, [x.name or '' for x in n.namespace_nodes], [x.name for x in n.attributes])
+                    nsn, att = n.namespace_nodes, n.attributes
+                    if not ref.adopt_order(rn.addr, [x.name or '' for x in nsn], [x.name for x in att]):
+                        self.why = 'namespace-nodes' if sorted(x.name or '' for x in nsn) != sorted(x.name for x in rn.nss) \
+                            else 'attribute-nodes'
+                        return False
+                    pos = [n.position] + [x.position for x in nsn] + [x.position for x in att]
+                    if any(not a < b for a, b in zip(pos, pos[1:])):
+                        self.why = 'positions-element<namespaces<attributes'
+                        return False
         except (IndexError, StopIteration, AttributeError, TypeError):
+            self.why = 'shape'
             return False
         ref.renumber()
         return ok
@@ -148,7 +181,7 @@ class Impl:
         try:
             tok = parser(version).parse(text)
             item = xdm.ep_find(self.top, self.conv(rctx.addr))
-            ctx = XPathContext(self.top, namespaces=dict(NS), item=item, fragment=self.cfg['fragment'])
+            ctx = XPathContext(self.top, namespaces=dict(self.nsarg), item=item, fragment=self.cfg['fragment'])
             res = list(tok.select(ctx))
         except ElementPathError as e:
             return ('error', getattr(e, 'code', None) or type(e).__name__)
@@ -352,9 +385,11 @@ def judge_ref(case, rec: Recorder | None = None) -> list[Disc]:
     except Exception as e:
         return [Disc(escape_bucket('C01', e) + '/build', 'node tree', repr(e), f'cfg={cfg}')]
     if not im.ok:
+        # the node tree is not the image of the input (C02's subject): no path verdict is possible, which must not pass silently
         if rec is not None:
             rec.cls('ref:skip-structure-differs(C02)', len(case['paths']))
-        return discs
+        return [Disc(f'C01/tree-structure-differs/{im.why}/{im.where}', 'node tree = reference tree of the input', im.why,
+                     f'cfg={cfg} xml={gx.to_xml(spec)}')]
     be = cfg['backend']
     topkind = 'dummy-doc' if im.dummy else im.tc['top']
     xml = None
@@ -372,6 +407,14 @@ def judge_ref(case, rec: Recorder | None = None) -> list[Disc]:
         rctx = im.ref_ctx(pc['item'])
         exp, info, nodes = im.expected(ast, rctx)
         classes = ['ref:path', f'ref:{be}', f'ref:top-{topkind}']
+        if be == 'lxml':
+            classes.append(f'ref:lxml-{cfg["rootkind"]}-root/{_misc_class(spec)}')
+        elif cfg.get('nsxml'):
+            classes.append('ref:et-xml-in-namespaces')
+        if any(st_[1] == 'namespace' for st_ in xdm.iter_steps(ast)):
+            classes.append('ref:namespace-axis')
+            if be == 'et' and cfg.get('nsxml'):
+                classes.append('ref:namespace-axis-with-xml-in-et-namespaces')
         verdict = True
         if im.dummy and info.doc_upward:
             verdict = False
@@ -564,14 +607,19 @@ def judge_lxml(case, rec: Recorder | None = None) -> list[Disc]:
     discs: list[Disc] = []
     spec, cfg = case['spec'], case['cfg']
     try:
-        im = Impl(spec, {'backend': 'lxml', 'rootkind': 'doc', 'fragment': None})
+        # root kind as drawn: the Element itself (its document-level siblings must still be part of the tree) or the ElementTree
+        im = Impl(spec, {'backend': 'lxml', 'rootkind': cfg.get('rootkind', 'doc'), 'fragment': None, 'nsxml': None})
     except Exception as e:
         return [Disc(escape_bucket('C01', e) + '/build', 'node tree', repr(e), f'cfg={cfg}')]
     if not im.ok:
         if rec is not None:
             rec.cls('lxml:skip-structure-differs(C02)', len(case['paths']))
-        return discs
+        return [Disc(f'C01/tree-structure-differs/{im.why}/{im.where}', 'node tree = reference tree of the input', im.why,
+                     f'cfg={cfg} xml={gx.to_xml(spec)}')]
     b, ref = im.b, im.ref
+    # Element root without document-level siblings: elementpath works with a hidden implicit document; addresses of the
+    # reference and of libxml2 are document-topped (root element = (0,)), those of elementpath element-topped
+    up = (lambda a: (0,) + a) if im.dummy else (lambda a: a)
     ctx_objs = [ref.by_addr[a] for a in sorted(b.by_addr)]       # element/comment/PI reference nodes
     xml = None
 
@@ -603,19 +651,21 @@ def judge_lxml(case, rec: Recorder | None = None) -> list[Disc]:
         if any(len(x) and isinstance(x[-1], tuple) and x[-1][0] == 'ns' for x in r):
             out = []
             for x in r:
-                if x == ():
+                if x == () and not im.dummy:
                     continue
-                n = ref.by_addr.get(x)
+                n = ref.by_addr.get(up(x))
                 out.append((n.name, n.value) if n is not None and n.kind == 'namespace' else ('?', '?'))
             return ('ns', sorted(out))
-        return [x for x in r if x != ()]
+        return [up(x) for x in r if im.dummy or x != ()]
 
     for pc in case['paths']:
         ast = pc['ast']
         text = render(ast)
         rctx = ctx_objs[pc['item'] % len(ctx_objs)] if pc['item'] is not None else ref.root
         nodes, info = im.ev.evaluate(ast, rctx)
-        classes = ['lxml:path'] + ['lxml:' + c for c in shape_classes(ast, ref, None)]
+        classes = ['lxml:path', f'lxml:{cfg.get("rootkind", "doc")}-root/{_misc_class(spec)}'] + \
+            ['lxml:' + c for c in shape_classes(ast, ref, None)]
+        hidden_doc = im.dummy and (info.doc_upward or (_has_bare_root(ast) and ast != ['path', 1, []]))
         if info.fp_from_attr_ns:
             classes.append('lxml:excluded-following/preceding-from-attr-or-ns')
         elif info.order_dep:
@@ -640,6 +690,8 @@ def judge_lxml(case, rec: Recorder | None = None) -> list[Disc]:
                 cu = culprit(ast, rctx, lx_fn, norm_ref, ref, ctx_ok)
                 discs.append(Disc(f'C01/ORACLES-DISAGREE/libxml2-vs-reference/{cu}', want, r1, detail()))
                 classes.append('lxml:oracles-disagree')
+            elif hidden_doc:
+                classes.append('lxml:no-verdict-hidden-implicit-document')
             elif g1 != want:
                 if isinstance(g1, tuple) and g1[0] == 'escape':
                     discs.append(Disc(g1[1] + '/lxml', want, g1[2], detail()))
@@ -648,7 +700,8 @@ def judge_lxml(case, rec: Recorder | None = None) -> list[Disc]:
                 else:
                     # libxml2 and the reference agree on this path: attribute the divergence with the reference, which
                     # unlike libxml2 can be evaluated from every kind of context node
-                    cu = culprit(ast, rctx, lambda a, c: (norm_ref(a, c), im.ev.evaluate(a, c)[0]), norm_ep, ref)
+                    cu = culprit(ast, rctx, lambda a, c: (norm_ref(a, c), im.ev.evaluate(a, c)[0]), norm_ep, ref,
+                                 lambda n: not (im.dummy and n.kind == 'document'))
                     discs.append(Disc(f'C01/lxml/{cu}', want, g1, detail()))
         if rec is not None:
             nsteps = sum(1 for _ in xdm.iter_steps(ast))
@@ -670,6 +723,7 @@ def judge_api(case, rec: Recorder | None = None) -> list[Disc]:
     b = gx.materialize(spec, cfg['backend'])
     root_obj = b.tree if cfg['rootkind'] == 'doc' else b.root
     fr = cfg['fragment']
+    nsarg = ns_arg(cfg)
     elems = [b.by_addr[a] for a in sorted(b.by_addr) if not callable(b.by_addr[a].tag)]
     xml = None
     for pc in case['paths']:
@@ -709,8 +763,8 @@ def judge_api(case, rec: Recorder | None = None) -> list[Disc]:
                 return ('escape', escape_bucket('C01', e), repr(e))
 
         try:
-            tok = P(namespaces=dict(NS)).parse(text)
-            ctx = XPathContext(root_obj, namespaces=dict(NS), item=item, fragment=fr)
+            tok = P(namespaces=dict(nsarg)).parse(text)
+            ctx = XPathContext(root_obj, namespaces=dict(nsarg), item=item, fragment=fr)
             base = []
             for x in tok.select(ctx):
                 if hasattr(x, 'node_kind') and x.node_kind == 'document' and x is ctx.document and x is not ctx.root:
@@ -723,12 +777,12 @@ def judge_api(case, rec: Recorder | None = None) -> list[Disc]:
             base = None         # reported by ref
         if base is not None:
             forms = {
-                'select': lambda: elementpath.select(root_obj, text, dict(NS), parser=P, fragment=fr, item=item),
-                'iter_select': lambda: list(elementpath.iter_select(root_obj, text, dict(NS), parser=P, fragment=fr, item=item)),
-                'Selector.select': lambda: elementpath.Selector(text, dict(NS), parser=P).select(
-                    root_obj, namespaces=dict(NS), fragment=fr, item=item),
-                'Selector.iter_select': lambda: list(elementpath.Selector(text, dict(NS), parser=P).iter_select(
-                    root_obj, namespaces=dict(NS), fragment=fr, item=item)),
+                'select': lambda: elementpath.select(root_obj, text, dict(nsarg), parser=P, fragment=fr, item=item),
+                'iter_select': lambda: list(elementpath.iter_select(root_obj, text, dict(nsarg), parser=P, fragment=fr, item=item)),
+                'Selector.select': lambda: elementpath.Selector(text, dict(nsarg), parser=P).select(
+                    root_obj, namespaces=dict(nsarg), fragment=fr, item=item),
+                'Selector.iter_select': lambda: list(elementpath.Selector(text, dict(nsarg), parser=P).iter_select(
+                    root_obj, namespaces=dict(nsarg), fragment=fr, item=item)),
             }
             for name, fn in forms.items():
                 got = call(fn)
@@ -747,6 +801,131 @@ def judge_api(case, rec: Recorder | None = None) -> list[Disc]:
     return discs
 
 
+# --------------------------------------------------------------------------
+# history: one Selector, the tree edited in place, the same Selector again
+# --------------------------------------------------------------------------
+_hist_cfg = st.tuples(st.sampled_from(['et', 'lxml']), st.sampled_from(['elem', 'doc']),
+                      st.sampled_from([None, 'first', 'last'])).map(
+    lambda t: {'backend': t[0], 'rootkind': t[1], 'fragment': None, 'nsxml': t[2]})
+
+
+def _hist_cases(max_elems, n_paths, max_steps):
+    return st.fixed_dictionaries({
+        'spec': gx.tree_specs(max_elems=max_elems, max_depth=4, max_attrs=3, min_elems=4, prefix_uris=True, doc_misc=False),
+        'cfg': _hist_cfg,
+        'paths': st.lists(_path_case(max_steps), min_size=n_paths, max_size=n_paths),
+        'edit': gx.edits(),
+    })
+
+
+def _fmt_api(x):
+    if hasattr(x, 'node_kind') or hasattr(x, 'getroot'):
+        return ('doc', None)
+    if hasattr(x, 'tag'):
+        return ('obj', id(x))
+    if isinstance(x, tuple):
+        return ('val', tuple(x))
+    if isinstance(x, str):
+        return ('val', str(x))
+    return ('atomic', repr(x))
+
+
+def _api_call(fn):
+    from elementpath import ElementPathError
+    try:
+        r = fn()
+        return [_fmt_api(x) for x in r] if isinstance(r, list) else ('non-list', repr(r))
+    except ElementPathError as e:
+        return ('error', getattr(e, 'code', None) or type(e).__name__)
+    except Exception as e:
+        return ('escape', escape_bucket('C01', e), repr(e))
+
+
+def _expected_api(spec, cfg, b, ast):
+    """formatted result the reference predicts for the tree as it is now (None: no independent expectation)"""
+    nsarg = ns_arg(cfg)
+    tc = xdm.tree_config(spec, cfg['backend'], cfg['rootkind'], None, nsarg)
+    ref = xdm.ref_tree(spec, tc, for_context=True)
+    nodes, info = xdm.Evaluator(ref, {'xml': gx.XML_NS, **NS}).evaluate(ast, ref.root if tc['ctx_dummy'] else ref.top)
+    if info.order_dep or (tc['ctx_dummy'] and (info.doc_upward or _has_bare_root(ast))):
+        return None
+    out = []
+    for n in nodes:
+        if n.kind == 'namespace':
+            return None
+        if n.kind == 'document':
+            if not tc['ctx_dummy']:
+                out.append(('doc', None))
+        elif n.kind in ('attribute', 'text'):
+            out.append(('val', n.value))
+        else:
+            out.append(('obj', id(b.by_addr[n.addr])))
+    return out
+
+
+def judge_history(case, rec: Recorder | None = None) -> list[Disc]:
+    import elementpath
+    discs: list[Disc] = []
+    spec, cfg, edit = case['spec'], case['cfg'], case['edit']
+    b = gx.materialize(spec, cfg['backend'])
+    root_obj = b.tree if cfg['rootkind'] == 'doc' else b.root
+    nsarg = ns_arg(cfg)
+    spec2 = gx.apply_edit(spec, edit)
+    changed = spec2 != spec
+    sels = []
+    for pc in case['paths']:
+        text = render(pc['ast'])
+        version = VERSIONS[(pc['item'] or 0) % 4]
+        P = type(parser(version))
+        try:
+            sel = elementpath.Selector(text, dict(nsarg), parser=P)
+        except elementpath.ElementPathError:
+            sel = None
+        if sel is not None:
+            sels.append((pc['ast'], text, version, P, sel, _api_call(lambda: sel.select(root_obj, namespaces=dict(nsarg))),
+                         _expected_api(spec, cfg, b, pc['ast'])))
+    # the caller edits the tree in place ...
+    gx.apply_edit_objs(b, edit)
+    gx.reindex(b)
+    xml = None
+    for ast, text, version, P, sel, before, exp_before in sels:
+        # ... and applies the same selectors to the same root object
+        again = _api_call(lambda: sel.select(root_obj, namespaces=dict(nsarg)))
+        again_iter = _api_call(lambda: list(sel.iter_select(root_obj, namespaces=dict(nsarg))))
+        fresh = _api_call(lambda: elementpath.select(root_obj, text, dict(nsarg), parser=P))
+        exp_after = _expected_api(spec2, cfg, b, ast)
+
+        def detail():
+            nonlocal xml
+            xml = xml or gx.to_xml(spec)
+            return f'path={text} parser={version} edit={edit} cfg={cfg} xml-before-edit={xml}'
+        for name, got in (('Selector.select', again), ('Selector.iter_select', again_iter)):
+            if got != fresh:
+                discs.append(Disc(f'C01/history/reused-{name}-differs-from-fresh-select/{edit["op"]}', fresh, got, detail()))
+        # independent expectation, only where the first application agreed with the reference (known defects stay in C01/ref)
+        if exp_before is not None and exp_after is not None and before == exp_before:
+            for name, got in (('Selector.select', again), ('select', fresh)):
+                if got != exp_after:
+                    discs.append(Disc(f'C01/history/{name}-after-edit-differs-from-reference/{edit["op"]}', exp_after, got, detail()))
+            if cfg['backend'] == 'lxml' and cfg['rootkind'] == 'elem':     # libxml2 can only start from the root element
+                try:
+                    lx = [_fmt_api(x) for x in b.root.xpath(text, namespaces=NS)]
+                except Exception:
+                    lx = None
+                if lx is not None and version == '1.0' and not any(k == 'doc' for k, _ in exp_after) and lx != again:
+                    discs.append(Disc(f'C01/history/Selector.select-after-edit-differs-from-libxml2/{edit["op"]}', lx, again, detail()))
+        if rec is not None:
+            visible = exp_before is not None and exp_after is not None and exp_before != exp_after
+            classes = ['hist:path', f'hist:{edit["op"]}']
+            if changed:
+                classes.append('hist:tree-changed')
+            if visible:
+                classes.append('hist:result-changed-by-edit')
+            rec.case([spec, cfg, text, version, edit], nontrivial=visible, classes=classes,
+                     sample={'check': 'history', 'path': text, 'edit': edit, 'cfg': cfg})
+    return discs
+
+
 def _tag2(g):
     return 'list' if isinstance(g, list) else f'{g[0]}:{str(g[1]).rsplit("/", 1)[-1]}'
 
@@ -754,12 +933,14 @@ def _tag2(g):
 # --------------------------------------------------------------------------
 # module interface
 # --------------------------------------------------------------------------
-_JUDGES = {'ref': judge_ref, 'lxml': judge_lxml, 'api': judge_api}
+_JUDGES = {'ref': judge_ref, 'lxml': judge_lxml, 'api': judge_api, 'history': judge_history}
 
 
 def _strategy(job):
     if job['check'] == 'lxml':
         return _cases(job['max_elems'], job['n_paths'], job['max_steps'], _lxml_cfg)
+    if job['check'] == 'history':
+        return _hist_cases(job['max_elems'], job['n_paths'], job['max_steps'])
     return _cases(job['max_elems'], job['n_paths'], job['max_steps'])
 
 
@@ -790,6 +971,8 @@ def jobs(tier, seed):
     for i in range(na):
         out.append({'check': 'api', 'shard': i, 'n': per_a, 'max_elems': me, 'n_paths': 16, 'max_steps': ms,
                     'seed': derive_seed(seed, 'C01', 'api', i)})
+    out.append({'check': 'history', 'shard': 0, 'n': 700 if q else 6000, 'max_elems': me, 'n_paths': 8, 'max_steps': 3,
+                'seed': derive_seed(seed, 'C01', 'history', 0)})
     return out
 
 
